@@ -53,6 +53,12 @@ def _run_worker(part: Part, extra: List[str], timeout: float) -> Dict[str, Any]:
     try:
         p = subprocess.run(cmd, capture_output=True, text=True, timeout=timeout, env=_env(part), cwd=str(HERE))
     except subprocess.TimeoutExpired:
+        if os.environ.get("VT_TIER") == "thorough":
+            # thorough partitions are sized to run for a long time and CrossHair's own limit counts CPU time: under
+            # load the wall limit can be reached without a hang -> unexplored remainder (stated), not an error
+            return {"status": "not_confirmed", "wall_limit": True, "wall_s": time.time() - t0, "paths": {}, "z3": {}, "reach": 0,
+                    "messages": [{"state": "CANNOT_CONFIRM", "message": "wall-clock limit (%ds) reached: partition not exhausted" % timeout}],
+                    "ce_args": None}
         return {"status": "error", "error": "worker exceeded its wall-clock limit (%ds): some path does not terminate" % timeout,
                 "wall_s": time.time() - t0, "paths": {}, "z3": {}, "reach": 0, "messages": [], "ce_args": None}
     for line in reversed(p.stdout.splitlines()):
